@@ -264,3 +264,59 @@ __CPROVER_ensures(OG_INV && !RELOADING) /*@ C03 "after the update a registered t
     trusted=['sequentially consistent interleavings; the registering thread\'s steps keep the invariant and come in its proved order (unit TCM.register)'],
     assumes=['__CPROVER_assume inside the rely macro: the other thread leaves the hand-off invariant intact'], allow_assume=True, min_obligations=5)
 UNITS += [register, update_cache]
+
+# ------------------------------------------------------------------------------------------ ThreadContext constructor / destructor
+TCQ_PRELUDE = r'''
+typedef uint8_t QueueType; enum { QT_UnboundedBlocking, QT_UnboundedDropping, QT_BoundedBlocking, QT_BoundedDropping };
+typedef int HugePagesPolicy;
+typedef struct TCq { QueueType _queue_type; bool g_has_unbounded, g_has_bounded; } TCq;   /* the union holds at most one live queue: two ghost flags */
+size_t g_uq_ctor, g_bq_ctor, g_uq_dtor, g_bq_dtor, g_cap, g_max; HugePagesPolicy g_policy;
+static inline bool TC_has_unbounded_queue_type(TCq* t) { return t->_queue_type == QT_UnboundedBlocking || t->_queue_type == QT_UnboundedDropping; }
+static inline bool TC_has_bounded_queue_type(TCq* t) { return t->_queue_type == QT_BoundedBlocking || t->_queue_type == QT_BoundedDropping; }
+void UQ_CONSTRUCT(TCq* self, size_t cap, size_t max, HugePagesPolicy p)
+__CPROVER_requires(!self->g_has_unbounded && !self->g_has_bounded)
+__CPROVER_assigns(self->g_has_unbounded, g_uq_ctor, g_cap, g_max, g_policy) __CPROVER_ensures(self->g_has_unbounded && g_uq_ctor == OLD(g_uq_ctor) + 1 && g_cap == cap && g_max == max && g_policy == p);
+void BQ_CONSTRUCT(TCq* self, size_t cap, HugePagesPolicy p)
+__CPROVER_requires(!self->g_has_unbounded && !self->g_has_bounded)
+__CPROVER_assigns(self->g_has_bounded, g_bq_ctor, g_cap, g_policy) __CPROVER_ensures(self->g_has_bounded && g_bq_ctor == OLD(g_bq_ctor) + 1 && g_cap == cap && g_policy == p);
+void UQ_DESTROY(TCq* self)
+__CPROVER_requires(self->g_has_unbounded) /*@ C20 "the destructor of the unbounded queue runs only on a live unbounded queue (the union member that was constructed)" */
+__CPROVER_assigns(self->g_has_unbounded, g_uq_dtor) __CPROVER_ensures(!self->g_has_unbounded && g_uq_dtor == OLD(g_uq_dtor) + 1);
+void BQ_DESTROY(TCq* self)
+__CPROVER_requires(self->g_has_bounded) /*@ C20 "the destructor of the bounded queue runs only on a live bounded queue" */
+__CPROVER_assigns(self->g_has_bounded, g_bq_dtor) __CPROVER_ensures(!self->g_has_bounded && g_bq_dtor == OLD(g_bq_dtor) + 1);
+#define LIVE_MATCHES_TYPE(t) (((t)->g_has_unbounded ? 1 : 0) == (TC_has_unbounded_queue_type(t) ? 1 : 0) && ((t)->g_has_bounded ? 1 : 0) == (TC_has_bounded_queue_type(t) ? 1 : 0))
+'''
+TCQ_METHODS = {'has_unbounded_queue_type': 'TC_has_unbounded_queue_type', 'has_bounded_queue_type': 'TC_has_bounded_queue_type'}
+tc_ctor = dict(
+    name='TC.ctor', primary='C03', props={'C03', 'C01', 'C02'}, kind='L',
+    desc='ThreadContext constructor: exactly the queue named by the queue type is constructed in the union, with the configured capacities',
+    structs=[], prelude=TCQ_PRELUDE, enforce='TC_ctor', replace=['UQ_CONSTRUCT', 'BQ_CONSTRUCT'],
+    funcs=[dict(src=dict(header=H, cls='ThreadContext', name='ThreadContext', nth=0), cfun='TC_ctor',
+                sig='void TC_ctor(TCq* self, QueueType queue_type, size_t initial_queue_capacity, size_t unbounded_queue_max_capacity, HugePagesPolicy huge_pages_policy)', cls_c='TC',
+                member_fields=['_queue_type'], siblings=['has_unbounded_queue_type', 'has_bounded_queue_type'],
+                pre_rules=[(r'^\s*\{', '{ self->_queue_type = queue_type;', '!'),
+                           (r'new\s*\(&_spsc_queue_union\.unbounded_spsc_queue\)\s*UnboundedSPSCQueue\{([^{}]*)\}\s*;', r'UQ_CONSTRUCT(self, \1);'),
+                           (r'new\s*\(&_spsc_queue_union\.bounded_spsc_queue\)\s*BoundedSPSCQueue\{([^{}]*)\}\s*;', r'BQ_CONSTRUCT(self, \1);')],
+                contract=r'''
+__CPROVER_requires(__CPROVER_is_fresh(self, sizeof(*self)) && queue_type <= QT_BoundedDropping && !self->g_has_unbounded && !self->g_has_bounded && g_uq_ctor == 0 && g_bq_ctor == 0)
+__CPROVER_assigns(self->_queue_type, self->g_has_unbounded, self->g_has_bounded, g_uq_ctor, g_bq_ctor, g_cap, g_max, g_policy)
+__CPROVER_ensures(self->_queue_type == queue_type && LIVE_MATCHES_TYPE(self) && g_uq_ctor + g_bq_ctor == 1) /*@ C03 "a thread context owns exactly one queue and it is of the configured kind" */
+__CPROVER_ensures(g_cap == initial_queue_capacity && g_policy == huge_pages_policy && (self->g_has_unbounded ==> g_max == unbounded_queue_max_capacity)) /*@ C01,C02 "the queue is created with the configured initial capacity, maximum capacity and huge page policy" */
+''')],
+    harness='  TCq* t; QueueType q; size_t a, b; HugePagesPolicy h; TC_ctor(t, q, a, b, h);',
+    dropped=['the mem-initialiser _queue_type(queue_type) is re-stated by a rule (first statement of the body)', 'placement new into the union as a constructor stub + liveness flag'], trusted=['queue constructors: units BQ.ctor / UQ.ctor'], min_obligations=8)
+tc_dtor = dict(
+    name='TC.dtor', primary='C20', props={'C20'}, kind='L',
+    desc='ThreadContext destructor: destroys the union member that is alive - the one the queue type names - exactly once',
+    structs=[], prelude=TCQ_PRELUDE, enforce='TC_dtor', replace=['UQ_DESTROY', 'BQ_DESTROY'],
+    funcs=[dict(src=dict(header=H, cls='ThreadContext', name='~ThreadContext'), cfun='TC_dtor', sig='void TC_dtor(TCq* self)', cls_c='TC', member_fields=['_queue_type'], siblings=['has_unbounded_queue_type', 'has_bounded_queue_type'],
+                pre_rules=[(r'_spsc_queue_union\.unbounded_spsc_queue\.~UnboundedSPSCQueue\(\)\s*;', 'UQ_DESTROY(self);'), (r'_spsc_queue_union\.bounded_spsc_queue\.~BoundedSPSCQueue\(\)\s*;', 'BQ_DESTROY(self);')],
+                contract=r'''
+__CPROVER_requires(__CPROVER_is_fresh(self, sizeof(*self)) && self->_queue_type <= QT_BoundedDropping && LIVE_MATCHES_TYPE(self) && g_uq_dtor == 0 && g_bq_dtor == 0)
+__CPROVER_assigns(self->g_has_unbounded, self->g_has_bounded, g_uq_dtor, g_bq_dtor)
+__CPROVER_ensures(!self->g_has_unbounded && !self->g_has_bounded && g_uq_dtor + g_bq_dtor == 1) /*@ C20 "reclaiming a thread context releases its queue (all buffers) exactly once" */
+''')],
+    harness='  TCq* t; TC_dtor(t);',
+    dropped=['explicit destructor calls on union members as destructor stubs + liveness flag'], trusted=['queue destructors (node list walk / buffer release) are not covered'], min_obligations=8)
+UNITS += [tc_ctor, tc_dtor]
